@@ -246,8 +246,28 @@ class Ctx:
                 self.merge(st)
 
 
+def _logging_for_shard(i):
+    """Every fourth shard runs with debug logging switched ON (into a null handler): what the code under test does must not
+    depend on the log level, and arguments of log calls are evaluated whatever the level."""
+    import logging
+
+    if i % 4 == 3 and not os.environ.get("VERIF_NO_DEBUG_SHARDS"):
+        logging.disable(logging.NOTSET)
+        root = logging.getLogger()
+        root.handlers = [logging.NullHandler()]
+        root.setLevel(logging.DEBUG)
+        for name in ("bellows", "bellows.ash", "bellows.uart", "bellows.ezsp", "bellows.ezsp.protocol", "bellows.zigbee.application",
+                     "bellows.multicast", "bellows.thread", "bellows.types.named"):
+            logging.getLogger(name).setLevel(logging.DEBUG)
+        logging.getLogger("asyncio").setLevel(logging.CRITICAL)
+        logging.getLogger("hypothesis").setLevel(logging.CRITICAL)
+    else:
+        logging.disable(logging.CRITICAL)
+
+
 def _shard_entry(a):
     prop_id, tier, seed, i, known, worker, job = a
+    _logging_for_shard(i)
     try:
         c = Ctx(prop_id, tier, seed * 1000 + i, known)
         worker(c, job)
